@@ -502,3 +502,59 @@ def check_trailing_pointer(ctx, unit, rule="H.chain-unlink"):
                          "every chain walk advances through a link it has not rewritten (successor saved before relinking)", f)
 
 
+
+
+# ---- K.next-after-relink: a chain walk does not follow a link it has just rewritten --------------------------------------
+
+def check_next_after_relink(ctx, unit, rule="K.next-after-relink", cls="frg::hash_map", link="next"):
+    """rehash() moves every node to the front of a chain of the new table, which overwrites the node's `next`; the walk
+    over the old chain therefore has to read `next` BEFORE the node is relinked.  Per path: once `c->next` has been
+    written for the node that a cursor variable c designates, c must not be advanced with `c = c->next` (the walk would
+    continue in the new table and drop the rest of the old chain).  Relinking written in a helper, in the loop body or in
+    the for-increment reads the same after folding."""
+    ctx.rule(rule, "in hash_map, a cursor over a chain is not advanced through a `next` link that was overwritten for the same node "
+             "on that path (rehash saves the old link before it relinks the node)", 1)
+    n_inst = 0
+    for f in unit.functions:
+        if f.owner_cls != cls or f.get("lambda"):
+            continue
+        # cursor candidates: pointer locals that are advanced through their own link somewhere in f
+        curs = set()
+        for n in f.events():
+            w = write_of(n)
+            if w and w[0] and len(w[0]) == 1 and w[0][0].startswith("v:") and w[1] is not None:
+                pv = path(w[1])
+                if pv and len(pv) == 2 and pv[-1] == link:
+                    curs.add(w[0][0])
+        # (`c = c->next` directly, or through a saved copy `n = c->next; ...; c = n`)
+        if not curs:
+            continue
+        bad = []
+
+        def transfer(n, st):
+            w = write_of(n)
+            if w and w[0]:
+                p_ = w[0]
+                if len(p_) == 2 and p_[-1] == link and p_[0].startswith("v:"):
+                    return [st | {p_[0]}]                      # c->next = ...
+                if len(p_) == 1 and p_[0].startswith("v:") and w[1] is not None:
+                    pv = path(w[1])
+                    if pv and len(pv) == 2 and pv[-1] == link and pv[0] in st:
+                        bad.append((n.loc, pv[0].split("#")[0][2:]))
+                    # any assignment to the variable makes it designate another node
+                    return [frozenset(x for x in st if x != p_[0])]
+            if n.kind == "DeclStmt":
+                for d in n.get("decls", []):
+                    if "init" in d:
+                        pv = path(f.node(d["init"]))
+                        if pv and len(pv) == 2 and pv[-1] == link and pv[0] in st:
+                            bad.append((n.loc, pv[0].split("#")[0][2:]))
+            return [st]
+        flow.run(f, [frozenset()], transfer, None, limit=50000)
+        n_inst += 1
+        ctx.inst(rule, f.sig, not bad, (bad[0][0] if bad else f.loc),
+                 ("`%s->%s` is read at %s after it was overwritten for the same node on that path: the walk continues in the chain "
+                  "the node was just linked into and the rest of the old chain is dropped" % (bad[0][1], link, bad[0][0])) if bad else
+                 "every link is read before the node is relinked", f)
+    if n_inst == 0:
+        raise AnalysisBroken("anchor vanished: no chain walk in %s" % cls)
